@@ -3,14 +3,95 @@
 use super::*;
 use crate::verif_kani::util::*;
 
+fn payload_nonverbose_case<const PL: u16>(input: &[u8; 8], big: bool, control: bool) {
+    let mt = if control { Some(MessageType::Control(ControlType::Request)) } else if kani::any() { Some(MessageType::Log(LogLevel::Warn)) } else { None };
+    let r = if big {
+        dlt_payload::<BigEndian>(input, false, PL, kani::any(), mt)
+    } else {
+        dlt_payload::<LittleEndian>(input, false, PL, kani::any(), mt)
+    };
+    match r {
+        Ok((rest, p)) => {
+            // consumes exactly the declared payload and returns a suffix
+            assert!(rest.len() == 8 - PL as usize);
+            assert!(bytes_eq(rest, &input[PL as usize..]));
+            match p {
+                PayloadContent::NonVerbose(id, data) => {
+                    assert!(!control && PL >= 4);
+                    let idb = [input[0], input[1], input[2], input[3]];
+                    assert!(id == if big { u32::from_be_bytes(idb) } else { u32::from_le_bytes(idb) });
+                    assert!(bytes_eq(&data, &input[4..PL as usize]));
+                }
+                PayloadContent::ControlMsg(_, data) => {
+                    assert!(control && PL >= 1);
+                    assert!(bytes_eq(&data, &input[1..PL as usize]));
+                }
+                _ => { assert!(false); }
+            }
+        }
+        Err(_) => {
+            // too short for its mandatory id
+            assert!(if control { PL < 1 } else { PL < 4 });
+        }
+    }
+}
+
+macro_rules! payload_nv_harness {
+    ($name:ident, $pl:expr, $big:expr, $control:expr) => {
+        #[kani::proof]
+        #[kani::stub(alloc::fmt::format, fmt_stub)]
+        #[kani::unwind(12)]
+        fn $name() {
+            let input: [u8; 8] = kani::any();
+            payload_nonverbose_case::<$pl>(&input, $big, $control);
+        }
+    };
+}
+// dlt_payload, non-verbose and control branches on an 8-byte input; payload length, byte order
+// and kind are constants per harness (CBMC needs concrete allocation sizes)
+payload_nv_harness!(inp_payload_nonverbose_be4, 4, true, false);
+payload_nv_harness!(inp_payload_nonverbose_le7, 7, false, false);
+payload_nv_harness!(inp_payload_nonverbose_le3, 3, false, false);
+payload_nv_harness!(inp_payload_control_1, 1, true, true);
+payload_nv_harness!(inp_payload_control_8, 8, false, true);
+payload_nv_harness!(inp_payload_control_0, 0, false, true);
+
+fn payload_verbose_case(noar: u8, word: u32) {
+    let v: [u8; 3] = kani::any();
+    let w = word.to_le_bytes();
+    let input: [u8; 7] = [w[0], w[1], w[2], w[3], v[0], v[1], v[2]];
+    let mt = if kani::any() { Some(MessageType::Log(LogLevel::Info)) } else { Some(MessageType::NetworkTrace(NetworkTraceType::Can)) };
+    match dlt_payload::<LittleEndian>(&input, true, kani::any(), noar, mt) {
+        Ok((rest, p)) => {
+            assert!(rest.len() <= input.len());
+            assert!(rest.len() == if noar == 0 { 7 } else { 2 });
+            match p {
+                PayloadContent::Verbose(args) => { assert!(args.len() == noar as usize); }
+                PayloadContent::NetworkTrace(s) => { assert!(s.len() == 0); }
+                _ => { assert!(false); }
+            }
+        }
+        Err(_) => { assert!(false); }
+    }
+}
+
+/// dlt_payload, verbose branch: the rest is a suffix of the input (the contract the Verus unit
+/// c04_message assumes); NOAR and the type-info word are constants per harness
 #[kani::proof]
 #[kani::stub(alloc::fmt::format, fmt_stub)]
 #[kani::unwind(12)]
-fn inp_exp_payload0() {
-    let p: [u8; 4] = kani::any();
-    let r = dlt_payload::<LittleEndian>(&p, true, 2, 0, Some(MessageType::Log(LogLevel::Info)));
-    match r {
-        Ok((rest, _)) => { assert!(rest.len() == 2); }
-        Err(_) => {}
-    }
+fn inp_payload_verbose_noar0() {
+    payload_verbose_case(0, 0x41);
+}
+#[kani::proof]
+#[kani::stub(alloc::fmt::format, fmt_stub)]
+#[kani::unwind(12)]
+fn inp_payload_verbose_u8() {
+    payload_verbose_case(1, 0x41);
+}
+#[kani::proof]
+#[kani::stub(alloc::fmt::format, fmt_stub)]
+#[kani::unwind(12)]
+fn inp_payload_verbose_bool() {
+    payload_verbose_case(1, 0x11);
 }
